@@ -27,7 +27,7 @@ if len(DOC_COLS) < 15:
     raise core.HarnessError("could not parse the diagnostic column list from docs/diagnostic.rst")
 
 PROF = sc.make_prof(fams=["lin", "sinlin", "rosen", "hashed", "hashed", "script", "hinge"], diag=1.0, reg=0.06, zero_resid=0.05,
-                    maxfuns=["npt+1", 10, 30, 60, 150, 150],
+                    maxfuns=["npt+1", 10, 30, 60, 150, 150], regression_bias=0.08,
                     # the radius updates have their own copies inside the growing phase (safety steps with their three variants,
                     # growing.gamma_dec, the reset at its end): a fifth of all cases grows its initial set
                     opts_list=[0, 0, 0, 1, 2, 3, 4, 4, 4, 4, 5, 6, 7, 8, 9, 10, 12, 13],
